@@ -5,8 +5,10 @@ Headline theorems about the model `Irismod.Coinswap`, for every state, every mes
 party (recipient equal to or different from the sender, parties that coincide with escrows
 included: ledgers are stated in net form over ℤ, `Spec.C02.Ledger`).
 
-The full statement fails of the code for routed swaps with `recipient ≠ sender` (finding
-F-swap-1): `DoubleHopNets` is refuted by a witness; `double_hop_settles_partial` is what holds.
+Routed swaps: the full settlement statement is proved for every sender and recipient
+(`double_hop_settles`, `double_hop_nets`).  Before fix f20f96d it was false of the code for
+`recipient ≠ sender` (finding F-swap-1, now `fixed`); the old witness is kept as a regression
+example (`witness_outcome`).
 -/
 import Irismod.Proofs.Coinswap
 
@@ -54,8 +56,8 @@ theorem swap_single_exact (s s' : State) (sender rcpt : Addr) (inD outD : Denom)
         refine ⟨n, inA.toNat, bought, hleg.look, hled, ?_, by simp, hT, by simpa using hblk, hcfg⟩
         intro _; constructor <;> omega
 
-/-- **C02(b)** what an accepted routed (token→token) swap does in the model, literally as the
-code routes it: both legs are `swapCoins(sender, recipient, …)` -/
+/-- **C02(b)** the literal ledger of an accepted routed (token→token) swap: first leg
+`swapCoins(sender, sender, …)`, second leg `swapCoins(sender, recipient, …)` -/
 theorem swap_double_ledger (s s' : State) (sender rcpt : Addr) (inD outD : Denom) (inA outA : Int)
     (buy : Bool) (dl : Int) (resp : CoinList) (hdouble : isDouble s inD outD = true)
     (h : step s (.swap sender rcpt inD inA outD outA buy dl) = .ok (s', resp)) :
@@ -112,13 +114,13 @@ theorem swap_double_ledger (s s' : State) (sender rcpt : Addr) (inD outD : Denom
           by simpa using hblk, hcfg1.trans hcfg2⟩
         intro _; constructor <;> omega
 
-/-- the routed-swap ledger the property demands and the one the code produces have the same net
-effect when the recipient is the sender -/
-theorem doubleCode_net_self (sender : Addr) (na nb : Nat) (inD std outD : Denom) (sold k bought : Nat) :
-    (∀ a d, netBal (doubleCode sender sender na nb inD std outD sold k bought) a d
-          = netBal (doubleSpec sender sender na nb inD std outD sold k bought) a d) ∧
-    (∀ d, netSup (doubleCode sender sender na nb inD std outD sold k bought) d
-          = netSup (doubleSpec sender sender na nb inD std outD sold k bought) d) := by
+/-- the literal moves of the code net to the property's ledger for every sender and recipient:
+the intermediate standard coin leaves the first pool and arrives in the second -/
+theorem doubleCode_net (sender rcpt : Addr) (na nb : Nat) (inD std outD : Denom) (sold k bought : Nat) :
+    (∀ a d, netBal (doubleCode sender rcpt na nb inD std outD sold k bought) a d
+          = netBal (doubleSpec sender rcpt na nb inD std outD sold k bought) a d) ∧
+    (∀ d, netSup (doubleCode sender rcpt na nb inD std outD sold k bought) d
+          = netSup (doubleSpec sender rcpt na nb inD std outD sold k bought) d) := by
   constructor
   · intro a d
     simp only [doubleCode, doubleSpec, netBal, Mv.bal]
@@ -126,34 +128,48 @@ theorem doubleCode_net_self (sender : Addr) (na nb : Nat) (inD std outD : Denom)
   · intro d
     simp [doubleCode, doubleSpec, netSup, Mv.sup]
 
-/-- **C02(c), partial (F-swap-1 excluded)**: a routed swap whose recipient is the sender settles
-exactly as the property demands — sold coin to the first pool, the intermediate standard coin from
-the first pool to the second (it nets to zero for the user), bought coin to the user. -/
-theorem double_hop_settles_partial (s s' : State) (sender rcpt : Addr) (inD outD : Denom) (inA outA : Int)
+/-- **C02(c)** an accepted routed swap settles exactly as the property demands, for every sender
+and every recipient (equal or different, escrows included): sold coin from the sender to the first
+pool, the intermediate standard coin from the first pool to the second, bought coin from the second
+pool to the recipient; every other (account, denom) and every supply unchanged; bound and deadline
+respected. -/
+theorem double_hop_settles (s s' : State) (sender rcpt : Addr) (inD outD : Denom) (inA outA : Int)
     (buy : Bool) (dl : Int) (resp : CoinList) (hdouble : isDouble s inD outD = true)
-    (hself : rcpt = sender)
     (h : step s (.swap sender rcpt inD inA outD outA buy dl) = .ok (s', resp)) :
     ∃ na nb sold k bought, lookupLpt s inD s.std = .ok na ∧ lookupLpt s s.std outD = .ok nb ∧
-      Ledger s.bank s'.bank (doubleSpec sender rcpt na nb inD s.std outD sold k bought) ∧
+      Ledger s.bank s'.bank (doubleSpec sender rcpt na nb inD s.std outD sold k bought) ∧ 0 < k ∧
       (buy = false → (sold : Int) = inA ∧ outA ≤ (bought : Int)) ∧
-      (buy = true → (bought : Int) = outA ∧ (sold : Int) ≤ inA) ∧ InTime s.now dl := by
-  obtain ⟨na, nb, sold, k, bought, hla, hlb, hled, _, h1, h2, hT, _, _⟩ :=
+      (buy = true → (bought : Int) = outA ∧ (sold : Int) ≤ inA) ∧
+      InTime s.now dl ∧ s.blocked.contains rcpt = false ∧ SameCfg s s' := by
+  obtain ⟨na, nb, sold, k, bought, hla, hlb, hled, hk, h1, h2, hT, hb, hc⟩ :=
     swap_double_ledger s s' sender rcpt inD outD inA outA buy dl resp hdouble h
-  subst hself
-  obtain ⟨e1, e2⟩ := doubleCode_net_self rcpt na nb inD s.std outD sold k bought
-  exact ⟨na, nb, sold, k, bought, hla, hlb, Ledger.congr hled e1 e2, h1, h2, hT⟩
+  obtain ⟨e1, e2⟩ := doubleCode_net sender rcpt na nb inD s.std outD sold k bought
+  exact ⟨na, nb, sold, k, bought, hla, hlb, Ledger.congr hled e1 e2, hk, h1, h2, hT, hb, hc⟩
 
-/-- the full statement of the property for routed swaps: the intermediate standard coin nets to
-zero for the sender and for the recipient -/
-def DoubleHopNets : Prop :=
-  ∀ (s s' : State) (sender rcpt : Addr) (inD outD : Denom) (inA outA : Int) (buy : Bool) (dl : Int)
-    (resp : CoinList),
-    isDouble s inD outD = true → (∀ n, sender ≠ poolAddr n) → (∀ n, rcpt ≠ poolAddr n) →
-    step s (.swap sender rcpt inD inA outD outA buy dl) = .ok (s', resp) →
+/-- **C02(c′)** in particular the intermediate standard coin nets to zero for the sender and for
+the recipient (parties that are not themselves escrows) -/
+theorem double_hop_nets (s s' : State) (sender rcpt : Addr) (inD outD : Denom) (inA outA : Int)
+    (buy : Bool) (dl : Int) (resp : CoinList) (hdouble : isDouble s inD outD = true)
+    (hs : ∀ n, sender ≠ poolAddr n) (hr : ∀ n, rcpt ≠ poolAddr n)
+    (h : step s (.swap sender rcpt inD inA outD outA buy dl) = .ok (s', resp)) :
     s'.bank.balOf sender s.std = s.bank.balOf sender s.std ∧
-    s'.bank.balOf rcpt s.std = s.bank.balOf rcpt s.std
+    s'.bank.balOf rcpt s.std = s.bank.balOf rcpt s.std := by
+  obtain ⟨na, nb, sold, k, bought, _, _, hled, _⟩ :=
+    double_hop_settles s s' sender rcpt inD outD inA outA buy dl resp hdouble h
+  have hdi : inD ≠ s.std ∧ outD ≠ s.std := by
+    simp only [isDouble, Bool.and_eq_true, bne_iff_ne] at hdouble; exact hdouble
+  have a1 := hled.1 sender s.std
+  have a2 := hled.1 rcpt s.std
+  have p1 : ¬ poolAddr na = sender := fun e => hs na e.symm
+  have p2 : ¬ poolAddr nb = sender := fun e => hs nb e.symm
+  have p3 : ¬ poolAddr na = rcpt := fun e => hr na e.symm
+  have p4 : ¬ poolAddr nb = rcpt := fun e => hr nb e.symm
+  simp only [doubleSpec, netBal, Mv.bal, hdi.1, hdi.2, p1, p2, and_false, false_and, if_false] at a1
+  simp only [doubleSpec, netBal, Mv.bal, hdi.1, hdi.2, p3, p4, and_false, false_and, if_false] at a2
+  constructor <;> omega
 
-/-- witness of F-swap-1: two pools of 10^6/10^6, A0 sells 1000 btc for eth to A1 -/
+/-- regression example (the witness of the former finding F-swap-1): two pools of 10^6/10^6, A0
+sells 1000 btc for eth to A1 -/
 def witnessState : State :=
   { std := "stake", pools := [("btc", 1), ("eth", 2)], seq := 3,
     bank := { bal := [(("A0", "btc"), 5000), (("A0", "stake"), 5000), (("P1", "btc"), 1000000),
@@ -162,33 +178,12 @@ def witnessState : State :=
 
 def witnessOp : Op := .swap "A0" "A1" "btc" 1000 "eth" 1 false 100
 
-/-- what the code does on the witness: the sender is debited 996 stake, the recipient is credited
-996 stake on top of the 992 eth -/
+/-- on the witness the fixed routing leaves the sender's stake untouched, credits the recipient
+no stake and 992 eth (before f20f96d: sender −996 stake, recipient +996 stake) -/
 theorem witness_outcome :
     (match step witnessState witnessOp with
      | .ok (s', _) => (s'.bank.balOf "A0" "btc", s'.bank.balOf "A0" "stake", s'.bank.balOf "A1" "stake", s'.bank.balOf "A1" "eth")
-     | .error _ => (0, 0, 0, 0)) = (4000, 4004, 996, 992) := by decide
-
-/-- **F-swap-1**: the full statement is false of the code -/
-theorem double_hop_does_not_net : ¬ DoubleHopNets := by
-  intro hall
-  cases hstep : step witnessState witnessOp with
-  | error e =>
-    have hw := witness_outcome
-    rw [hstep] at hw
-    simp at hw
-  | ok r =>
-    obtain ⟨s', resp⟩ := r
-    have hw := witness_outcome
-    rw [hstep] at hw
-    simp only [Prod.mk.injEq] at hw
-    have := hall witnessState s' "A0" "A1" "btc" "eth" 1000 1 false 100 resp (by decide)
-      (not_pool_of_head (by decide)) (not_pool_of_head (by decide)) hstep
-    have e : witnessState.std = "stake" := rfl
-    rw [e] at this
-    have h0 : witnessState.bank.balOf "A0" "stake" = 5000 := by decide
-    omega
-
+     | .error _ => (0, 0, 0, 0)) = (4000, 5000, 0, 992) := by decide
 
 /-! ### liquidity messages -/
 
